@@ -74,18 +74,16 @@ def structures(count, seed):
     fixed = [(8, [[1, 5], [3, 7]]), (12, [[1, 6], [2, 5], [4, 10], [8, 12]]), (6, [[1, 6], [2, 5]]), (5, []),
              (14, [[1, 8], [2, 7], [4, 11], [5, 10], [9, 14]]), (10, [[1, 4], [3, 6], [5, 8], [7, 10]])]
     # many regions (two-digit region indices inside the MILP): a bulged long-range knot enclosing nine hairpins
-    db = "(.(." + "(...)" * 9 + ".[.[.).).].]"
-    stack, knot, big = [], [], []
-    for i, ch in enumerate(db, 1):
-        if ch == "(":
-            stack.append(i)
-        elif ch == ")":
-            big.append([stack.pop(), i])
-        elif ch == "[":
-            knot.append(i)
-        elif ch == "]":
-            big.append([knot.pop(), i])
-    fixed.append((len(db), sorted(big)))
+    # ... and a chain of four stems of which the first and the last two cross (regions 0-3, 1-2, 2-3): the walk of
+    # the conflict graph must not depend on the order in which its edges were found
+    for db in ("(.(." + "(...)" * 9 + ".[.[.).).].]", "((.((.[[.)).{{.]].)).}}"):
+        stacks, pairs = {}, []
+        for i, ch in enumerate(db, 1):
+            if ch in "([{":
+                stacks.setdefault(ch, []).append(i)
+            elif ch in ")]}":
+                pairs.append([stacks[{")": "(", "]": "[", "}": "{"}[ch]].pop(), i])
+        fixed.append((len(db), sorted(pairs)))
     for n, pairs in fixed:
         out.append({"sid": f"s{len(out)}", "n": n, "pairs": pairs, "seq": [ss.LETTERS[i % 4] for i in range(n)]})
     # sequence letters beyond ACGU (modified residues, gap placeholders) on two of the fixed structures
